@@ -92,9 +92,12 @@ instance : Append Ev := ⟨Ev.append⟩
 def dropWhole (drops : Bool) (e : Cols) : Ev :=
   { drops := e.flat, dropT := if drops then e.firstLeaf else [] }
 
+/-- the first id of a row names its struct-destructor run -/
+def Elem.firstId (e : Elem) : Nat := e.ids.headD 0
+
 /-- the same for rows -/
 def dropRows (drops : Bool) (rs : List Elem) : Ev :=
-  { drops := (rs.map Elem.ids).flatten, dropT := if drops then rs.map (fun e => e.ids.headD 0) else [] }
+  { drops := (rs.map Elem.ids).flatten, dropT := if drops then rs.map Elem.firstId else [] }
 
 /-- events of destroying field values one array at a time (no struct destructor involved) -/
 def dropFields (e : Cols) : Ev := { drops := e.flat }
